@@ -21,6 +21,23 @@ BOUNDS_ALLOW = [
     r"packet\.c:\d+:\d+: runtime error: index \d+ out of bounds for type 'ttx_pop_link \[8\]'",  # pop_link[0][4..15] via (packet-19)*4
 ]
 
+# address-of expressions `acp = &pg->text[row * EXT_COLUMNS]` in teletext.c enhance(): for an object invoked near the bottom
+# of the page (invocation row + origin modifier + active row >= 26) the row pointer is FORMED past pg->text[] but never
+# dereferenced - enhance_flush() returns first (`if (row >= ROWS) return;`), the font-style loop tests `row < ROWS`.
+# Recognised by the source text of the reported line (not by line number); any access through such an index is reported.
+ADDR_ONLY = r"^\s*(es\.)?acp\s*=\s*&pg->text\[[^;=]*\];\s*$"
+
+
+def _addr_only(report):
+    m = re.search(r"(teletext\.c):(\d+):\d+: runtime error: index \d+ out of bounds for type 'vbi_char \[\d+\]'", report)
+    if not m:
+        return False
+    try:
+        line = open(os.path.join(verif.REPO, "src", m.group(1))).read().split("\n")[int(m.group(2)) - 1]
+    except (OSError, IndexError):
+        return False
+    return re.match(ADDR_ONLY, line) is not None
+
 
 class C01(verif.Spec):
     prop = "C01"
@@ -39,11 +56,16 @@ class C01(verif.Spec):
     open_statements = ["whole-library memory safety for all inputs (only the enumerated obligations are theorems)"]
 
     def gen_cases(self, rng, tier):
-        n = 90 if tier == "quick" else 2000
+        n = 600 if tier == "quick" else 6000
         cases = []
         for i in range(n):
-            kind = rng.choice(["ttx", "ttx", "ttx", "cc", "cc", "mixed", "noise"])
+            kind = rng.choice(["ttx", "ttx", "cc", "cc", "mixed", "noise", "l25", "l25", "l25", "top", "top", "l25top"])
             ops = []
+            if kind in ("l25", "top", "l25top"):
+                # structured Level 2.5 / 3.5 and TOP networks (lib/decgen.py L25, TopNet)
+                cases.append(decgen.enh_case(rng, kind) + ["delete"])
+                self._kind[hash("\n".join(cases[-1]))] = kind
+                continue
             net = decgen.Net(rng)
             t = 0
             if kind in ("ttx", "mixed"):
@@ -102,8 +124,13 @@ class C01(verif.Spec):
             cases.append(ops)
         return cases
 
+    _kind = {}
+
     def classify(self, case):
         has = lambda p: any(l.startswith(p) for l in case)
+        k = self._kind.get(hash("\n".join(case)))
+        if k:
+            return "structured-" + k + ("+search" if has("search") else "")
         return ("ttx" if any(l.startswith("l 3 ") for l in case) else "other") + ("+cc" if has("l 60 ") or has("l 18 ") else "") + \
                ("+search" if has("search") else "") + ("+export" if has("export") else "")
 
@@ -124,10 +151,12 @@ class C01(verif.Spec):
         """second build: -fsanitize=bounds (recoverable), same cases' first part; any report outside the allow-list"""
         out = []
         flags = ["-O1", "-g", "-fsanitize=bounds", "-fsanitize-recover=bounds", "-fno-omit-frame-pointer"]
-        exe, err = verif.build_harness("dec_harness", flags=flags, tag="bounds")
+        # the same build counts which Level 2.5 / TOP paths the cases reach (harness -DDEC_STATS, see dec_harness.c)
+        exe, err = verif.build_harness("dec_harness", flags=flags, tag="bounds",
+                                       extra=["-DDEC_STATS", "-Wl,--wrap=vbi_convert_page", "-Wl,--wrap=_vbi_cache_get_page"])
         if exe is None:
             return [("bounds build failed: " + err[-300:], [])]
-        cases = ctx["cases"][: (400 if ctx["tier"] == "quick" else 4000)]
+        cases = ctx["cases"][: (1000 if ctx["tier"] == "quick" else 8000)]
         text = verif.flatten(cases)
         try:
             p = subprocess.run([exe], input=text.encode(), stdout=subprocess.PIPE, stderr=subprocess.PIPE, timeout=600)
@@ -135,9 +164,28 @@ class C01(verif.Spec):
             return []
         rep = set()
         for line in p.stderr.decode("utf-8", "replace").split("\n"):
-            if "runtime error: index" in line and not any(re.search(a, line) for a in BOUNDS_ALLOW):
+            if "runtime error: index" in line and not any(re.search(a, line) for a in BOUNDS_ALLOW) and not _addr_only(line):
                 rep.add(re.sub(r"^.*/src/", "", line.strip()))
         self.extra_coverage = {"bounds_build_cases": len(cases), "bounds_reports_outside_allowlist": sorted(rep)}
+        st = re.findall(r"^DECSTATS (.*)$", p.stderr.decode("utf-8", "replace"), flags=re.M)
+        reach = {}
+        for line in st:                      # one line per harness process (the run is one process unless a case crashed)
+            for kv in line.split():
+                k, v = kv.split("=")
+                reach[k] = reach.get(k, 0) + int(v)
+        # per case, from the op lines: what the generator aimed at
+        def count(pred): return sum(1 for c in cases if pred(c))
+        reach["cases_with_level25_fetch"] = count(lambda c: any(re.match(r"fetch \w+ \w+ [23] ", l) for l in c))
+        reach["cases_with_top_index_fetch"] = count(lambda c: any(l.startswith("fetch 900 ") for l in c))
+        reach["cases_with_nav25_fetch"] = count(lambda c: any(re.match(r"fetch \w+ \w+ \d 25 1", l) for l in c))
+        self.extra_coverage["level25_top_reach"] = reach
+        self.extra_coverage["level25_top_reach_legend"] = (
+            "totals over all cases, counted inside the -fsanitize=bounds build: objdrcs_lookup = object / DRCS page look-ups by "
+            "enhance() (resolve_obj_address, DRCS invocation), by result (miss / pop / drcs / unknown = needs conversion / other); "
+            "conv_* = vbi_convert_page(cached) calls from teletext.c by target, *_plain = source cached at the plain LOP size; "
+            "ait_* = AIT look-ups by top_label / next_ait / vbi_page_title; nav_top = fetches with navigation, 25 rows and TOP "
+            "known, nav_top_no_block_below = of these, no block/group page at or below the page (the scan wraps below 0x100); "
+            "top_index = successful fetches of page 900")
         for r in sorted(rep)[:3]:
             out.append(("array index out of bounds: " + r, []))
         return out
